@@ -77,6 +77,19 @@ add(
     "3/C03",
 )
 
+add(
+    "C13",
+    "The real Optimizer.optimize/create_result run on terms with an adversarial least_squares stub (arbitrary evaluation "
+    "points, arbitrary Jacobian) and the SVD contract stub: number_of_residuals / clps / free parameters / dof against "
+    "independent counts, chi_square = sum fun^2 = sum of squared (weighted) residuals read from the result datasets + "
+    "squared penalties, cost = chi/2 through re-evaluation, reduced chi, RMSE and dataset RMSEs as sqrt terms, "
+    "covariance = V diag(1/sigma^2 | sigma^2 > eps) V^T symmetric (all mask paths), standard errors per free label "
+    "(log-space mapping for non-negative parameters, all branches).",
+    COMMON_NOTE + "least_squares and np.linalg.svd are contract stubs; identities closed by z3's simplifier normal form "
+    "with congruence over sqrt/exp/log applications, branch feasibility by z3.",
+    "3/C13",
+)
+
 ALL = [f"C{i:02d}" for i in range(1, 21)]
 
 
